@@ -56,11 +56,21 @@ def behaviours(prop, tier, c, mode, rng):
         alphabet = ["ok", "ConnectError", "ConnectTimeout", "OtherError"]
         # the outcomes are consumed by the successive connect-stage operations (TCP, then TLS when
         # the scheme is https); an exhausted script means "ok"
+        k = 0
         for ln in range(0, n + 3):
             for seq in itertools.product(alphabet, repeat=ln):
                 if seq and seq[-1] == "ok":
                     continue  # same run as the shorter script
-                yield ["@connect"] + list(seq), None
+                seq = list(seq)
+                if "OtherError" in seq:
+                    # "any other kind of failure": the concrete class rotates over an httpcore class of
+                    # another family, OSError subclasses and other builtins (thorough: every one of them)
+                    classes = E.OTHER_CLASSES if not quick else [E.OTHER_CLASSES[k % len(E.OTHER_CLASSES)]]
+                    k += 1
+                    for cls in classes:
+                        yield ["@connect"] + [("OtherError:" + cls) if o == "OtherError" else o for o in seq], None
+                else:
+                    yield ["@connect"] + seq, None
         # ... and a retriable-looking failure AFTER the connection was established
         for f in ("ConnectError", "ConnectTimeout", "ReadError"):
             yield ["post:" + f], None
@@ -86,6 +96,14 @@ def behaviours(prop, tier, c, mode, rng):
             yield ["ok"] * k + [f], None
     if c["proxy"] in ("http", "https") and c["scheme"] != "http":
         yield [], "connect"
+        if prop == "C11":
+            # "any other reply": redirects, authentication demands, server errors
+            statuses = [301, 302, 305, 307, 400, 407, 500, 503]
+            if quick:
+                i = rng.randrange(4)
+                statuses = [statuses[i], statuses[4 + rng.randrange(4)]]
+            for st in statuses:
+                yield [], f"connect:{st}"
     if c["proxy"] == "socks5":
         yield [], "socks-greet"
         yield [], "socks-connect"
@@ -141,12 +159,35 @@ def run_into(chk, prop, tier):
                     continue
                 seen.add(key)
                 traces.append(t)
+    nsecond = 0
+    if prop == "C11":
+        # histories: a second request by another caller on the kept-alive connection (HTTP/1.1 hops)
+        for c in cases:
+            if c["http2"] and (c["alpnH2"] or not c["http1"]):
+                continue
+            t = E.record(dict(c, second=True), [], None, "sync")
+            evals += 1
+            if "second" in t:
+                nsecond += 1
+                traces.append(t)
+        chk.coverage["second_request_histories"] = nsecond
+        if not nsecond:
+            raise tlc.MachineryError("no second-request history was recorded")
     # 3. TLC replays them
     verdicts, stats = E.validate(traces, groups=GROUP[prop])
     rejected = [(t, v) for t, v in zip(traces, verdicts) if v[0] != "ACCEPT"]
     accepted = [t for t, v in zip(traces, verdicts) if v[0] == "ACCEPT"]
     # canaries
     can = canaries(accepted, GROUP[prop])
+    if prop == "C11":
+        import copy
+
+        b = copy.deepcopy(next(t for t in accepted if "second" in t))
+        b["second"]["carries"] = ["callerHeader"] + list(b["second"]["carries"])
+        v2, _ = E.validate([b], groups=GROUP[prop])
+        can["second-request-carries-first-callers-header"] = v2[0][0]
+        if v2[0][0] == "ACCEPT":
+            raise tlc.MachineryError("canary 'second-request-carries-first-callers-header' was ACCEPTED")
     diag = E.diagnose([t for t, _ in rejected]) if rejected else []
     for (t, v), d in zip(rejected, diag):
         devs, allv, alll, mode = d
